@@ -24,7 +24,9 @@ sv = VerusUnit("c13_single_via", "c13_single_via", rlimit=60, paired_kani=(kw, [
 yr = VerusUnit("c13_yen_run", "c13_yen_run", rlimit=60, paired_kani=(kw, []))
 sp = VerusUnit("c02_speed", "c02_speed", rlimit=30)
 ro = VerusUnit("c03_route_output", "c03_route_output", rlimit=30)
-UNITS = [heading, turn, sm, cm, sv, yr, sp, ro, smw, kw]
+ow = KaniUnit("c07_cost_ops_wit", CORE, modules=[dict(file=CORE + "/src/model/cost/cost_ops.rs", src="c07_cost_ops_wit.rs")], harnesses=[])
+ow.native_witnesses = ["c07_wit_cost_is_weight_times_rated_state_change"]
+UNITS = [heading, turn, sm, cm, sv, yr, sp, ro, smw, kw, ow]
 EXPLANATION = ("turn classification kernels (complete over i16); StateModel get/set/add under contract (frame + `add` grows the slot by the increment converted to the feature's unit) and the accumulation lemma; "
                "per-edge state/cost split (EdgeTraversal::forward/reverse_traversal, Verus, see C07 units); the speed-table traversal model (unit c02_speed): an edge adds its length (converted) to the distance slot "
                "and length / its own table speed to the time slot, nothing else changes; the reverse half of a bidirectional route is re-traversed edge by edge in travel order, each edge after its TRUE predecessor "
